@@ -115,6 +115,8 @@ var propOverrides = map[string]func(*propCfg){
 	"C07": func(c *propCfg) { c.quickRuns, c.quickSecs = 700, 110 },
 	"C13": func(c *propCfg) { c.quickRuns, c.quickSecs = 600, 110 },
 	"C14": func(c *propCfg) { c.quickRuns, c.quickSecs = 1200, 110 },
+	"C22": func(c *propCfg) { c.quickRuns, c.quickSecs = 1500, 110 },
+	"C23": func(c *propCfg) { c.quickRuns, c.quickSecs = 800, 100 },
 	"C41": func(c *propCfg) {
 		c.race = true
 		c.quickRuns, c.quickSecs = 160, 150 // a race-detector run costs ~0.7 s of (mostly kernel) time and does not parallelise well in this VM
